@@ -9,7 +9,8 @@
    Utf8.valid and Utf8Chunks to split as Str.lossy_fuel does (all three are std code; the tie
    compares them on every case); formatting is compared with std format! on the implementation only. *)
 From Coq Require Import ZArith List Bool Arith.
-From BS Require Import Utf8 Colls Str StrProofs.
+From BS Require Import Utf8 Colls Str StrProofs StrAssertSpec.
+From BS.gen Require StrAsserts.
 Import ListNotations.
 
 (* ---- UTF-8 itself *)
@@ -159,6 +160,21 @@ Theorem C09_cstr_is_text_up_to_first_nul_plus_one_nul :
     exists rest, s = text ++ rest /\ (rest = [] \/ exists r, rest = 0%Z :: r).
 Proof. exact into_cstr_contract. Qed.
 
+(* "panic exactly when an index is ... not on a character boundary": the assert_char_boundary calls of the CURRENT string
+   sources (read out on every run: gen/StrAsserts.v) are the ones the model's panic conditions mention - every growing /
+   replacing / splitting operation of BumpString, MutBumpString, FixedBumpString and BumpBox<str> asserts exactly its
+   index arguments, split_off in each of its branches (the empty interior range included: defect 4), and
+   assert_char_boundary is the is_char_boundary test *)
+Theorem C09_source_boundary_assertions_are_the_models :
+  asserts_ok StrAsserts.boundary_asserts = true /\ StrAsserts.assert_char_boundary_is_the_boundary_test = true.
+Proof. vm_compute. split; reflexivity. Qed.
+
+Theorem C09_passing_assertion_table_means :
+  forall rows, asserts_ok rows = true ->
+  (forall f fn args, In (f, fn, args) rows -> expected_asserts fn = Some args) /\
+  (forall k, In k required -> exists args, In (fst k, snd k, args) rows).
+Proof. exact asserts_ok_spec. Qed.
+
 Print Assumptions C09_valid_is_concatenation_of_encodings.
 Print Assumptions C09_boundaries_are_ends_of_characters.
 Print Assumptions C09_split_at_boundary_is_valid.
@@ -201,3 +217,5 @@ Print Assumptions C09_from_utf16_error_iff_unpaired_surrogate.
 Print Assumptions C09_from_utf16_lossy_valid.
 Print Assumptions C09_from_utf16_lossy_agrees.
 Print Assumptions C09_cstr_is_text_up_to_first_nul_plus_one_nul.
+Print Assumptions C09_source_boundary_assertions_are_the_models.
+Print Assumptions C09_passing_assertion_table_means.
